@@ -54,7 +54,7 @@ def do_update(m, args):
 
 
 def gen_updates(rng, call, n):
-    return [call(rng, rng.choice([1, 2, 3, 5])) for _ in range(n)]
+    return [call(rng, rng.choice([1, 2, 3, 4, 5])) for _ in range(n)]
 
 
 def build(case, rng, pre):
@@ -227,18 +227,31 @@ def c11_case(case, seed, pre, layout):
         d = same(r1, r2)
         if d:
             return f"compute() is not idempotent: {d}"
-    # update() leaves its arguments untouched (contiguous and strided)
+    # update() leaves its arguments untouched (contiguous and strided) -- right after the call AND after
+    # every later operation on the metric (a metric that keeps a caller tensor as its buffer is caught late)
     m = basecalls.make(name, kw, cls)
-    for u in gen_updates(rng, call, 2):
+    kept = []
+    for u in gen_updates(rng, call, 4):
         for view in (False, True):
             a, k = clone_args(*u)
             if view:
                 a = tuple(strided(x) for x in a)
                 k = {n: strided(x) for n, x in k.items()}
-            ref = impl_val([list(a), [k[n] for n in sorted(k)]]) if all(isinstance(x, (torch.Tensor, int, float, str, list)) for x in a) else None
+            if not all(isinstance(x, (torch.Tensor, int, float, str, list)) for x in a):
+                m.update(*a, **k)
+                continue
+            live = [list(a), [k[n] for n in sorted(k)]]
+            ref = impl_val(live)
             m.update(*a, **k)
-            if ref is not None:
-                d = same(ref, impl_val([list(a), [k[n] for n in sorted(k)]]))
+            kept.append((ref, live, view))
+            for ref0, live0, view0 in kept:
+                d = same(ref0, impl_val(live0))
                 if d:
-                    return f"update() modified its {'strided ' if view else ''}arguments: {d}"
+                    return f"update() modified {'strided ' if view0 else ''}arguments passed to this or an earlier update(): {d}"
+    compute_val(m)
+    m.reset()
+    for ref0, live0, view0 in kept:
+        d = same(ref0, impl_val(live0))
+        if d:
+            return f"compute()/reset() modified arguments passed to an earlier update(): {d}"
     return None
